@@ -423,7 +423,14 @@ pub fn expand_glob(tokens: &mut types::Tokens) {
             let _basename = libs::path::basename(item);
             let show_hidden = _basename.starts_with(".*");
 
-            match glob::glob(item) {
+            // a wildcard never matches a leading dot, in whatever path
+            // component it stands (`sub/*/x` does not look into `sub/.git`)
+            let options = glob::MatchOptions {
+                case_sensitive: true,
+                require_literal_separator: false,
+                require_literal_leading_dot: true,
+            };
+            match glob::glob_with(item, options) {
                 Ok(paths) => {
                     let mut is_empty = true;
                     for entry in paths {
